@@ -173,9 +173,39 @@ func replayC06(env *core.Env, a []json.RawMessage) {
 	fmt.Printf("`%s` expected %s observed %s\n", src, want, got)
 }
 
+// c06Chain: three operands and two operators without parentheses. `and` binds tighter than `or` / `xor` (one level,
+// left to right), which bind tighter than `implies` (left to right).
+func c06Chain(env *core.Env, a, op1, b, op2, c string) {
+	lit := map[string]string{"T": "true", "F": "false", "E": "{}"}
+	level := map[string]int{"and": 1, "or": 2, "xor": 2, "implies": 3}
+	var want string
+	if level[op2] < level[op1] {
+		want = logic3(op1, a, logic3(op2, b, c)) // a op1 (b op2 c)
+	} else {
+		want = logic3(op2, logic3(op1, a, b), c) // (a op1 b) op2 c
+	}
+	env.Cover("three-operand-chain")
+	c06Prog(env, "chain-"+op1+"-"+op2, lit[a]+" "+op1+" "+lit[b]+" "+op2+" "+lit[c], want)
+}
+
 func runC06(env *core.Env) {
 	forms := c06Forms()
 	n := 0
+	ops := []string{"and", "or", "xor", "implies"}
+	for _, op1 := range ops {
+		for _, op2 := range ops {
+			for _, a := range []string{"T", "F", "E"} {
+				for _, b := range []string{"T", "F", "E"} {
+					for _, c := range []string{"T", "F", "E"} {
+						n++
+						if env.Mine(n) {
+							c06Chain(env, a, op1, b, op2, c)
+						}
+					}
+				}
+			}
+		}
+	}
 	for _, op := range []string{"and", "or", "xor", "implies"} {
 		for _, a := range forms {
 			for _, b := range forms {
